@@ -91,7 +91,22 @@ def model_batch(ctx, lines):
         path = os.path.join(ctx.scratch("driver"), "gvdriver")
         shutil.copy2(DRIVER, path)
         ctx._fmt_driver = path
-    return batch([path], lines)
+    res = batch([path], lines)
+    redo = [k for k, r in enumerate(res) if r is None or r.startswith("DIED")]
+    for k in redo[:200]:
+        res[k] = batch([path], [lines[k]], shards=1, timeout=300)[0]
+    return res
+
+
+def garden_batch(ctx, lines, **kw):
+    """ctx.garden_batch, then every request that got no answer (`None` / `DIED rc`: the shard's process
+    was killed by the wall-clock limit under machine load, or really died) is asked again on its own.
+    A request that kills the process deterministically still ends as `DIED`."""
+    res = ctx.garden_batch(lines, **kw)
+    redo = [k for k, r in enumerate(res) if r is None or r.startswith("DIED")]
+    for k in redo[:200]:
+        res[k] = ctx.garden_batch([lines[k]], shards=1, timeout=300)[0]
+    return res
 
 
 def has_nonascii_outside(src):
